@@ -218,7 +218,10 @@ def case_strategy(draw):
     t = draw(tree(allow_bytes=ser in ("marshal", "msgpack")))
     if draw(st.integers(0, 2)) == 0 and not (isinstance(t, dict) and "__class__" in t):
         t = draw(tagged(tree(ser in ("marshal", "msgpack")), ser in ("marshal", "msgpack")))
-    return {"ser": ser, "path": path, "tree": t}
+    case = {"ser": ser, "path": path, "tree": t}
+    if ser in ("serpent", "json") and draw(st.integers(0, 3)) == 0:
+        case["spell"] = "escaped"
+    return case
 
 
 # ------------------------------------------------------------------------------------------------
@@ -409,9 +412,17 @@ def encode(case):
     if ser == "json":
         if path != "loads":
             shaped = {"object": shaped[0], "method": shaped[1], "params": shaped[2], "kwargs": shaped[3]}
-        return json.dumps(jsonable(shaped)).encode("utf-8"), jsonable(shaped)
+        data = json.dumps(jsonable(shaped)).encode("utf-8")
+        if case.get("spell") == "escaped":
+            # the same JSON text with the tag key written with an escape: decodes to the very same tree
+            data = data.replace(b'"__class__"', b'"\\u005f_class__"').replace(b'"__exception__"', b'"__\\u0065xception__"')
+        return data, jsonable(shaped)
     if ser == "serpent":
-        return serpent.dumps(shaped), shaped
+        data = serpent.dumps(shaped)
+        if case.get("spell") == "escaped":
+            # the same Python literal with the tag key written with an escape: evaluates to the very same tree
+            data = data.replace(b"'__class__'", b"'\\x5f_class__'").replace(b"'__exception__'", b"'__\\x65xception__'")
+        return data, shaped
     if ser == "marshal":
         return marshal.dumps(shaped), shaped
     return msgpack.packb(msgpackable(shaped), use_bin_type=True), shaped
@@ -538,6 +549,8 @@ def _labels(case):
     l = ["ser:" + case["ser"], "path:" + case["path"]]
     if case.get("shared"):
         l.append("shared-subobjects")
+    if case.get("spell"):
+        l.append("tag-key-spelled-with-escapes")
     if tagsin:
         l.append("has-tag")
         if any(allowed_class(t, d, case["ser"]) is not None for t, d, _p in tagsin):
@@ -645,7 +658,10 @@ def sweep_cases(shard_index, shard_count):
                     if args is not None:
                         d["args"] = args
                     d["state"] = ("PYRO", "obj", None, "localhost", 5555)
-                    yield {"ser": ser, "path": "loads" if i % 3 else "call-args", "tree": d if i % 5 else [d]}
+                    case = {"ser": ser, "path": "loads" if i % 3 else "call-args", "tree": d if i % 5 else [d]}
+                    if ser in ("serpent", "json") and i % 4 == 1:
+                        case["spell"] = "escaped"
+                    yield case
 
 
 def SHARDS(tier):
